@@ -14,6 +14,7 @@ import (
 type KnownEntry struct {
 	Status   string          `json:"status"` // "known" or "fixed"
 	Property string          `json:"property"`
+	Also     []string        `json:"also_properties,omitempty"` // other properties whose checks meet the same defect
 	ID       string          `json:"id"`
 	What     string          `json:"what"`
 	Commit   string          `json:"commit,omitempty"`
@@ -72,6 +73,19 @@ func LoadHashes(rel string) map[uint64]struct{} {
 		}
 	}
 	return out
+}
+
+// Covers reports whether the entry applies to property id.
+func (e KnownEntry) Covers(id string) bool {
+	if e.Property == id {
+		return true
+	}
+	for _, a := range e.Also {
+		if a == id {
+			return true
+		}
+	}
+	return false
 }
 
 func runtimeStack(buf []byte) int { return runtime.Stack(buf, true) }
